@@ -191,6 +191,14 @@ def judge(ctx, cases):
                     else:
                         spec_ops.append({"op": "rev.spec.steps", **h, "n": -n, "from": sym, "to": impl["targets"][0]})
                     spec_meta.append(("steps", inp, impl, n))
+            # `+N` / `label@+N` without a revision: exactly N links above the single place to start from
+            if mm and not mm.group(2) and c["up"] and int(mm.group(3)) > 0 and "targets" in impl and len(impl["targets"]) == 1 \
+                    and impl["targets"][0] is not None:
+                op = {"op": "rev.spec.relup", **h, "rows": c["rows"], "n": int(mm.group(3)), "result": impl["targets"][0]}
+                if mm.group(1):
+                    op["label"] = mm.group(1)
+                spec_ops.append(op)
+                spec_meta.append(("relup", inp, impl, int(mm.group(3))))
             # a branch-qualified relative form never leaves the named branch
             if mm and mm.group(1) and "targets" in impl:
                 for t in impl["targets"]:
@@ -227,6 +235,9 @@ def judge(ctx, cases):
         elif kind == "inbranch":
             if a.get("holds") is False:
                 ctx.fail(inp, "outside-branch: %r resolves to %s which is not on the named branch" % (inp["target"], extra), impl=impl, tags=["branch"])
+        elif kind == "relup":
+            if a.get("holds") is False:
+                ctx.fail(inp, "relative-start: %r from rows %s resolves to %s, which is not exactly %d down_revision links above the one applied tip it must count from" % (inp["target"], inp["rows"], impl["targets"], extra), impl=impl, tags=["distance", "relup"])
         elif kind == "steps":
             if a.get("holds") is not True:
                 ctx.fail(inp, "distance: %r resolves to %s which is not exactly %d down_revision steps away" % (inp["target"], impl, extra), impl=impl, tags=["distance"])
